@@ -120,6 +120,7 @@ func (en *Engine) verifyFunc(fn *ssa.Function, ct *FuncContract, findings ...*Fi
 	if ct.NoPanicProps != nil {
 		f.props = ct.NoPanicProps
 	}
+	f.noFrame = ct.NoFrame
 	for _, p := range fn.Params {
 		v := f.freshVal("p "+p.Name(), p.Type(), h0)
 		f.params = append(f.params, v)
